@@ -227,3 +227,11 @@ Definition places_eqb (a b : list placement) : bool := places_subset a b && plac
 Definition same_display (a b : screen) : bool :=
   sgrid_eqb (sgrid a) (sgrid b) && places_eqb (places a) (places b)
   && negb (err a) && negb (err b).
+
+(* the same up to leftover placements: same cells, no protocol error, every placement of [b] is on
+   [a], and [a] has no placement besides those of [b] and the listed ones [E] (what a recorded defect
+   left on the terminal).  [display_upto [] a b = same_display a b] (ShowProofs... HistoryProofs) *)
+Definition display_upto (E : list placement) (a b : screen) : bool :=
+  sgrid_eqb (sgrid a) (sgrid b)
+  && (places_subset (places a) (places b ++ E) && places_subset (places b) (places a))
+  && negb (err a) && negb (err b).
